@@ -3,10 +3,14 @@
 usage: assemble_benign.py <first-run log with suite results> <final log>"""
 import json, os, re, shutil, subprocess, sys
 first, final = sys.argv[1], sys.argv[2]
+# optional: label prefix in the logs, source directory, name prefix of the kept directories
+PFX = sys.argv[3] if len(sys.argv) > 3 else 'B'
+SRC = sys.argv[4] if len(sys.argv) > 4 else '/tmp/benign'
+DST = sys.argv[5] if len(sys.argv) > 5 else 'BENIGN' 
 def parse(path):
     out = {}
     for line in open(path):
-        m = re.match(r'B_(\w+)_(\d) build=(\d+) suite=(\S+) alarms:\[(.*)\]', line.strip())
+        m = re.match(PFX + r'_(\w+)_(\d) build=(\d+) suite=(\S+) alarms:\[(.*)\]', line.strip())
         if m:
             out[(m.group(1), m.group(2))] = dict(build=int(m.group(3)), suite=m.group(4), alarms=m.group(5).split())
     return out
@@ -14,11 +18,11 @@ a, b = parse(first), parse(final)
 head = subprocess.check_output(['git', '-C', '/repo', 'log', '--format=%h', '-1']).decode().strip()
 rows = []
 for (area, k), fin in sorted(b.items()):
-    src = f'/tmp/benign/{area}/out/{k}'
+    src = f'{SRC}/{area}/out/{k}'
     if not os.path.isdir(src):
         continue
     fr = a.get((area, k), {})
-    dst = f'/verif/seeded/BENIGN_{area}_{k}'
+    dst = f'/verif/seeded/{DST}_{area}_{k}'
     os.makedirs(dst, exist_ok=True)
     shutil.copy(os.path.join(src, 'patch.diff'), os.path.join(dst, 'patch.diff'))
     agent = {}
@@ -27,7 +31,7 @@ for (area, k), fin in sorted(b.items()):
     except Exception:
         pass
     meta = {
-        'id': f'BENIGN_{area}_{k}',
+        'id': f'{DST}_{area}_{k}',
         'kind': 'negative control: behaviour-preserving refactoring, no check may report',
         'area': area,
         'summary': agent.get('summary', ''),
